@@ -953,6 +953,10 @@ func (k *c12run) indiPair(e *c12env, docs string, x, y *gedcom.IndividualNode, o
 	req := fmt.Sprintf("sim-indi %s %s %s", e.indi(x), e.indi(y), o.wire())
 	if !e.bad {
 		c.Tie(req, c12fl(s))
+		// the float64 result itself against the binary64 model (the model answers `skip` for dates
+		// outside the domain of Years())
+		c.Tie("sim-indif"+req[len("sim-indi"):], c05f64(s))
+		c.Count("sim-indif")
 	} else {
 		c.Count("individual:outside-model-domain")
 	}
@@ -1591,6 +1595,8 @@ func (k *c12run) tieShapes() {
 	}
 }
 
+var c12skipped func()
+
 func c12compare(req, impl, model string) bool {
 	ok, tight := c12compare1(req, impl, model)
 	if !ok && tight {
@@ -1609,6 +1615,11 @@ func c12compare1(req, impl, model string) (bool, bool) {
 	switch cmd {
 	case "jaro", "datesim", "datesim-s":
 		return len(mf) == 1 && len(xf) == 1 && c12close(xf[0], mf[0]), false
+	case "sim-indif":
+		if model == "skip" && c12skipped != nil {
+			c12skipped()
+		}
+		return model == "skip" || impl == model, false
 	case "jw", "strsim", "sim-indi", "sim-list", "sim-fam":
 		if len(mf) < 2 || len(xf) != 1 {
 			return false, false
@@ -1631,6 +1642,9 @@ func c12compare1(req, impl, model string) (bool, bool) {
 func init() {
 	runners["C12"] = func(c *Ctx) {
 		c.Compare = c12compare
+		c12skipped = func() {
+			c.Dist["sim-indif: outside the domain of the binary64 model (dates outside years 1..9999 or not calendar-valid): not compared"]++
+		}
 		c12inconclusive = func() {
 			c.Dist["inconclusive (float64 comparison within 1e-9 of its threshold, or a decision on an exact tie of the model)"]++
 		}
